@@ -50,12 +50,48 @@ type cfgKey struct {
 	cl string
 }
 
+// Sect is the shape of the response the candidates are selected for:
+//
+//	answer   www A / AAAA                          candidates in the answer section
+//	mx       m<f> MX -> one MX naming mx<f>         candidates at the MX target
+//	ns       x.d<f> A -> referral, NS ns.d<f>       candidates are the glue
+//	mx2      r<f> MX -> TWO MX (preferences 10, 20) naming the same target mx<f>
+//	ns2      x.e<f> A -> referral with TWO NS records (different TTLs) naming the same target ns.d<f>
+//	nsself   ns.d<f> A -> referral whose glue name is the queried name itself
+//	https    h<f> HTTPS -> one HTTPS record; its "target" is the queried name, which carries the candidates
+//	https2   g<f> HTTPS -> two HTTPS records (priorities 1, 2) of one owner
+//	mxmulti  c MX -> MX 10 mx4, MX 20 mx6, MX 30 mx4: distinct targets of one family each, one of them repeated
 type slot struct {
-	Sect string // "answer", "mx", "ns"
+	Sect string
 	Fam  int
 }
 
 func (s slot) String() string { return fmt.Sprintf("%s/fam%d", s.Sect, s.Fam) }
+
+// the additional-section shapes (every one exists per family 4, 6 and - small sets - 0 = both, except mxmulti)
+var addlSects = []string{"mx", "ns", "mx2", "ns2", "nsself", "https", "https2"}
+
+// a name of a response whose address records are judged, and the families it declares
+type target struct {
+	owner string
+	fams  [2]bool // v4, v6
+}
+
+func famsOf(f int) [2]bool { return [2]bool{f == 4 || f == 0, f == 6 || f == 0} }
+
+// targets of a slot: the names for which the response may (and, for NS/MX, must) carry selected addresses.
+func (s slot) targets(zone string) []target {
+	switch s.Sect {
+	case "mxmulti":
+		return []target{{"mx4." + zone, famsOf(4)}, {"mx6." + zone, famsOf(6)}}
+	}
+	return []target{{s.owner(zone), famsOf(s.Fam)}}
+}
+
+// exact: the statement demands exactly min(limit, positive-weight candidates) addresses (answer section, NS and
+// MX targets). For the owner of an HTTPS answer it only demands nothing wrong: at most one per family, declared,
+// visible, positive weight.
+func (s slot) exact() bool { return s.Sect != "https" && s.Sect != "https2" }
 
 // owner of the candidate rows for a slot; zone is "example.com." or, inside a
 // multi-set RocksDB store, "p<k>.example.com." (an empty non-terminal of the zone)
@@ -63,9 +99,15 @@ func (s slot) owner(zone string) string {
 	switch s.Sect {
 	case "answer":
 		return "www." + zone
-	case "mx":
+	case "mx", "mx2":
 		return fmt.Sprintf("mx%d.%s", s.Fam, zone)
-	default:
+	case "https":
+		return fmt.Sprintf("h%d.%s", s.Fam, zone)
+	case "https2":
+		return fmt.Sprintf("g%d.%s", s.Fam, zone)
+	case "mxmulti":
+		return "mx4." + zone // (first target; see targets)
+	default: // ns, ns2, nsself
 		return fmt.Sprintf("ns.d%d.%s", s.Fam, zone)
 	}
 }
@@ -80,6 +122,18 @@ func (s slot) query(zone string) (string, uint16) {
 		return "www." + zone, dns.TypeA
 	case "mx":
 		return fmt.Sprintf("m%d.%s", s.Fam, zone), dns.TypeMX
+	case "mx2":
+		return fmt.Sprintf("r%d.%s", s.Fam, zone), dns.TypeMX
+	case "mxmulti":
+		return "c." + zone, dns.TypeMX
+	case "ns2":
+		return fmt.Sprintf("x.e%d.%s", s.Fam, zone), dns.TypeA
+	case "nsself":
+		return fmt.Sprintf("ns.d%d.%s", s.Fam, zone), dns.TypeA
+	case "https":
+		return fmt.Sprintf("h%d.%s", s.Fam, zone), dns.TypeHTTPS
+	case "https2":
+		return fmt.Sprintf("g%d.%s", s.Fam, zone), dns.TypeHTTPS
 	default:
 		return fmt.Sprintf("x.d%d.%s", s.Fam, zone), dns.TypeA
 	}
@@ -110,9 +164,11 @@ type world struct {
 	both    bool              // the both-family targets exist
 	rows    map[string][]row  // owner|clientloc -> rows in the order the server's reader enumerates them
 	byAddr  map[string][2]int // address text -> (candidate index, family)
-	vis     map[cfgKey]*visInfo
+	vis     map[string]*visInfo
 	nk      map[cfgKey]int // key draws the handler takes
 	dr      map[cfgKey][]row
+	hc      *dnsfix.Handler // the same database behind a handler with the response cache enabled (cache.go)
+	pins    int             // > 0: in use by an enumeration, not to be evicted from the world cache
 }
 
 func setKey(set []sym) string {
@@ -134,9 +190,11 @@ func sortSyms(set []sym) {
 
 // setText renders the records of a candidate set below zone: the set is
 // declared, in both address families, at www (answer section), and per family
-// (and, for small sets, in both families together) at an MX target and at the
-// glue name of a delegation. Every owner also carries two records tagged for
-// another location (bb), which no client of this check may ever be served.
+// (and, for small sets, in both families together) at an MX target, at the
+// glue name of a delegation and at two owners of HTTPS records; further MX
+// owners and a delegation name the same targets twice or several of them (see
+// slot). Every address owner also carries two records tagged for another
+// location (bb), which no client of this check may ever be served.
 func setText(set []sym, both bool, zone string) string {
 	var sb strings.Builder
 	z := strings.TrimSuffix(zone, ".")
@@ -165,13 +223,23 @@ func setText(set []sym, both bool, zone string) string {
 	for _, f := range fams {
 		fmt.Fprintf(&sb, "@m%d.%s,,mx%d.%s,10,300,,\n", f, z, f, z)
 		fmt.Fprintf(&sb, "&d%d.%s,,ns.d%d.%s,3600,,\n", f, z, f, z)
+		// the same target named twice
+		fmt.Fprintf(&sb, "@r%d.%s,,mx%d.%s,10,300,,\n@r%d.%s,,mx%d.%s,20,300,,\n", f, z, f, z, f, z, f, z)
+		fmt.Fprintf(&sb, "&e%d.%s,,ns.d%d.%s,3600,,\n&e%d.%s,,ns.d%d.%s,7200,,\n", f, z, f, z, f, z, f, z)
+		// HTTPS records: the addresses of their owner go to the additional section
+		fmt.Fprintf(&sb, "Hh%d.%s,.,300,,1,alpn=h2\n", f, z)
+		fmt.Fprintf(&sb, "Hg%d.%s,.,300,,1,alpn=h2\nHg%d.%s,.,300,,2,alpn=h3\n", f, z, f, z)
 		ff := []int{f}
 		if f == 0 {
 			ff = []int{4, 6}
 		}
 		put(fmt.Sprintf("mx%d", f), ff...)
 		put(fmt.Sprintf("ns.d%d", f), ff...)
+		put(fmt.Sprintf("h%d", f), ff...)
+		put(fmt.Sprintf("g%d", f), ff...)
 	}
+	// several targets in one MX RRset, one of them twice
+	fmt.Fprintf(&sb, "@c.%s,,mx4.%s,10,300,,\n@c.%s,,mx6.%s,20,300,,\n@c.%s,,mx4.%s,30,300,,\n", z, z, z, z, z, z)
 	return sb.String()
 }
 
@@ -218,7 +286,9 @@ func (w *world) calibrate() {
 		if f == 0 && !w.both {
 			continue
 		}
-		owners = append(owners, slot{"mx", f}.owner(w.zone), slot{"ns", f}.owner(w.zone))
+		for _, sect := range []string{"mx", "ns", "https", "https2"} {
+			owners = append(owners, slot{sect, f}.owner(w.zone))
+		}
 	}
 	buf := make([]byte, 255)
 	for _, o := range owners {
@@ -311,6 +381,13 @@ func (w *world) close() {
 	if w.shared {
 		return
 	}
+	if w.pins > 0 {
+		vlib.Infra("harness: world %s closed while an enumeration is using it", setKey(w.set))
+	}
+	if w.hc != nil {
+		w.hc.Close()
+		w.hc = nil
+	}
 	if w.h != nil {
 		w.h.Close()
 		w.h = nil
@@ -329,9 +406,11 @@ func (w *world) drawRows(s slot, cl string) []row {
 		w.dr = map[cfgKey][]row{}
 	}
 	out := []row{}
-	for _, r := range w.rows[s.owner(w.zone)+"|"+cl] {
-		if s.Fam == 0 || r.Fam == s.Fam {
-			out = append(out, r)
+	for _, t := range s.targets(w.zone) {
+		for _, r := range w.rows[t.owner+"|"+cl] {
+			if (r.Fam == 4 && t.fams[0]) || (r.Fam == 6 && t.fams[1]) {
+				out = append(out, r)
+			}
 		}
 	}
 	w.dr[ck] = out
@@ -361,8 +440,20 @@ func getWorld(set []sym, b dnsfix.Backend) *world {
 		return w
 	}
 	for len(cache.order) >= cache.cap {
-		old := cache.order[0]
-		cache.order = cache.order[1:]
+		// evict the oldest world that no enumeration is using (a world being enumerated stays open while the
+		// minimisation of a failing case visits the worlds of its sub-sets)
+		vi := -1
+		for i, k := range cache.order {
+			if cache.m[k].pins == 0 {
+				vi = i
+				break
+			}
+		}
+		if vi < 0 {
+			break
+		}
+		old := cache.order[vi]
+		cache.order = append(cache.order[:vi:vi], cache.order[vi+1:]...)
 		cache.m[old].close()
 		delete(cache.m, old)
 	}
@@ -380,6 +471,7 @@ func getWorld(set []sym, b dnsfix.Backend) *world {
 func closeWorlds() {
 	for _, cache := range []*worldCache{cache, rdbCache} {
 		for _, k := range cache.order {
+			cache.m[k].pins = 0
 			cache.m[k].close()
 		}
 		cache.m, cache.order = map[string]*world{}, nil
@@ -391,23 +483,20 @@ func closeWorlds() {
 	}
 }
 
-// visInfo: the declared candidates of a slot that a client location may see,
-// per family (0: v4, 1: v6): address -> weight, and the number with weight > 0.
+// visInfo: the declared candidates that a client location may see, per family
+// (0: v4, 1: v6): address -> weight, and the number with weight > 0. Every
+// address owner of a world declares the same candidate set.
 type visInfo struct {
 	weight [2]map[string]uint32
 	pos    [2]int
 }
 
-func (w *world) visible(s slot, cl string) *visInfo {
-	k := cfgKey{s, cl}
-	if v, ok := w.vis[k]; ok {
+func (w *world) visible(cl string) *visInfo {
+	if v, ok := w.vis[cl]; ok {
 		return v
 	}
 	v := &visInfo{}
 	for k, f := range []int{4, 6} {
-		if s.Fam != 0 && s.Fam != f {
-			continue
-		}
 		v.weight[k] = map[string]uint32{}
 		for i, c := range w.set {
 			if c.Tag != "" && c.Tag != cl {
@@ -424,8 +513,8 @@ func (w *world) visible(s slot, cl string) *visInfo {
 		}
 	}
 	if w.vis == nil {
-		w.vis = map[cfgKey]*visInfo{}
+		w.vis = map[string]*visInfo{}
 	}
-	w.vis[k] = v
+	w.vis[cl] = v
 	return v
 }
